@@ -162,6 +162,7 @@ type c13Case struct {
 	even     bool
 	truthful bool     // the flags describe the coefficients (odd flag only: even coefficients are 0, …)
 	pre      []c13Pre // non-nil: EvaluateFromPowerBasis on a basis filled by these steps
+	pflags   [][2]bool // non-nil (vectors): the (IsOdd, IsEven) flags of every polynomial, each describing ITS coefficients
 }
 
 // c13Pre: one step of filling a PowerBasis before EvaluateFromPowerBasis
@@ -215,6 +216,13 @@ func (x *c13Ctx) describe(cs *c13Case) string {
 	}
 	if cs.flagsSet {
 		fmt.Fprintf(&sb, " odd=%d even=%d", b2i(cs.odd), b2i(cs.even))
+	}
+	if cs.pflags != nil {
+		parts := make([]string, len(cs.pflags))
+		for i, f := range cs.pflags {
+			parts[i] = fmt.Sprintf("%d%d", b2i(f[0]), b2i(f[1]))
+		}
+		sb.WriteString(" pf=" + strings.Join(parts, ","))
 	}
 	if cs.pre != nil {
 		parts := []string{}
@@ -309,6 +317,13 @@ func (x *c13Ctx) runCase(c *Ctx, cs *c13Case) {
 		}
 		return bp
 	}
+	mkI := func(i int) bignum.Polynomial {
+		bp := mk(cs.polys[i])
+		if cs.pflags != nil {
+			bp.IsOdd, bp.IsEven = cs.pflags[i][0], cs.pflags[i][1]
+		}
+		return bp
+	}
 	// the polynomial argument of Evaluate
 	mkPol := func() (interface{}, bool) {
 		if cs.mapping == nil {
@@ -318,7 +333,7 @@ func (x *c13Ctx) runCase(c *Ctx, cs *c13Case) {
 		}
 		ps := make([]bignum.Polynomial, len(cs.polys))
 		for i := range ps {
-			ps[i] = mk(cs.polys[i])
+			ps[i] = mkI(i)
 		}
 		m := map[int][]int{}
 		for i := range cs.mapping {
@@ -510,6 +525,9 @@ func (x *c13Ctx) runCase(c *Ctx, cs *c13Case) {
 	case cs.flagsSet && !cs.odd && cs.even:
 		valueKey, okKey = "C13/even-flag-degree0-accumulator", "C13/even-flag-degree0-accumulator"
 	}
+	if cs.pflags != nil {
+		valueKey, okKey = "C13/vector-mixed-parity", "C13/vector-mixed-parity"
+	}
 	if cs.inv && deg >= 1 && cs.level < int(math.Ceil(math.Log2(float64(deg)))) {
 		okKey = "C13/bfv-refuses-below-depth"
 	}
@@ -610,7 +628,11 @@ func (x *c13Ctx) runCase(c *Ctx, cs *c13Case) {
 				// holds once schemes/ckks/evaluator.go MulThenAdd keeps the accumulator's degree (C06-6/C06-7)
 				c.Probe("value_ckks_lazy_2pow-10", tag, "C13/ckks-lazy-value", bad)
 			} else {
-				c.Probe("value_ckks_2pow-10", tag, "C13-ckks-value", bad)
+				ck := "C13-ckks-value"
+				if cs.pflags != nil {
+					ck = "C13/vector-mixed-parity"
+				}
+				c.Probe("value_ckks_2pow-10", tag, ck, bad)
 			}
 			// out.scale = requested, relative error below 2^-30
 			r := new(big.Float).Quo(&out.Scale.Value, &target.Value)
@@ -707,6 +729,7 @@ func (x *c13Ctx) sc(c *Ctx) uint64 {
 func genC13(c *Ctx) {
 	c13Pure(c)
 	c13Mod1(c)
+	c13Mod1Sweep(c)
 	c13Composite(c)
 	maxDeg := c.Scale(31, 63)
 	logNs := []int{5}
@@ -770,6 +793,7 @@ func genC13(c *Ctx) {
 				}
 			}
 			c13Sequences(c, x)
+			c13MixedParity(c, x)
 			c13Extensions(c, x)
 			if scheme == "ckks" {
 				c13SparseChebyshev(c, x)
@@ -899,6 +923,64 @@ func c13Extensions(c *Ctx, x *c13Ctx) {
 						}
 						x.runCase(c, cs)
 					}
+				}
+			}
+		}
+	}
+}
+
+// c13MixedParity: ONE vector whose polynomials carry DIFFERENT parity flags, each describing its own coefficients:
+// general (flags both set — the constructor's default — or both cleared), odd (IsEven = false, even coefficients 0),
+// even (IsOdd = false) in every combination of two (thorough: also three) members, both bases, partial mappings.
+// Every slot is checked against ITS polynomial (bgv exactly, ckks 2^-10); trace, level and scale are tied.
+func c13MixedParity(c *Ctx, x *c13Ctx) {
+	L := x.rp.MaxLevel()
+	kinds := [][2]bool{{true, true}, {false, false}, {true, false}, {false, true}}
+	degs := []int{2, 3, 5, 8, 12, 15}
+	if c.Thorough() {
+		degs = []int{1, 2, 3, 4, 5, 7, 8, 9, 12, 15, 16, 24, 31, 33, 63}
+	}
+	bases := []bool{false}
+	if x.scheme == "ckks" {
+		bases = []bool{false, true}
+	}
+	for _, deg := range degs {
+		need := int(math.Ceil(math.Log2(float64(deg + 1))))
+		if need > L {
+			continue
+		}
+		for _, cheb := range bases {
+			for a := range kinds {
+				for b := range kinds {
+					if !c.Thorough() && (a+b+deg)%2 == 1 && a != b {
+						continue
+					}
+					fl := [][2]bool{kinds[a], kinds[b]}
+					if c.Thorough() && (a+2*b+deg)%5 == 0 {
+						fl = append(fl, kinds[c.rng.Intn(4)])
+					}
+					if x.scheme == "ckks" && cheb && deg < 2 {
+						continue
+					}
+					cs := &c13Case{cheb: cheb, lazy: c.rng.Intn(2) == 0 && x.scheme == "bgv", level: need + c.rng.Intn(L-need+1),
+						scale: x.sc(c), tscale: x.sc(c), x: x.randX(c), pflags: fl, truthful: true}
+					cs.mapping = make([][]int, len(fl))
+					for j := 0; j < x.slots; j++ {
+						if k := c.rng.Intn(len(fl) + 1); k < len(fl) {
+							cs.mapping[k] = append(cs.mapping[k], j)
+						}
+					}
+					for i := range fl {
+						shape := 0
+						if fl[i][0] && !fl[i][1] {
+							shape = 1 // odd
+						} else if !fl[i][0] && fl[i][1] {
+							shape = 2 // even
+						}
+						cs.polys = append(cs.polys, x.randPoly(c, deg, shape))
+					}
+					c.Count("mixed-parity-vector")
+					x.runCase(c, cs)
 				}
 			}
 		}
